@@ -87,6 +87,14 @@ void put_contract(myth_thread_queue_t q, myth_thread_t th)
   __CPROVER_requires(q == &ENVS[g_me].runnable_q && th == &CUR && g_put == 0)
   __CPROVER_requires(g_in_callback == 1 && g_ctx_saved == &CUR.context && "the yielding thread becomes runnable again only after its context has been saved")
   __CPROVER_assigns(g_put) __CPROVER_ensures(g_put == 1);
+/* a yielding thread goes to the END of the line (myth_queue_put: the steal end of its worker's deque), behind the threads
+   that are already runnable there; re-queued at the owner's hot end it would be the next one popped again and two
+   yielders would hand the worker back and forth for ever ("lets the other runnable threads use the worker") */
+void push_hot_end_contract(myth_thread_queue_t q, myth_thread_t th)
+  __CPROVER_requires(0 && "yield re-queues the caller behind the runnable threads of its worker (myth_queue_put), never at the hot end (myth_queue_push)")
+  __CPROVER_assigns() __CPROVER_ensures(1);
+void (*keep_put_c02)(myth_thread_queue_t, myth_thread_t) = myth_queue_put;
+void (*keep_push_c02)(myth_thread_queue_t, myth_thread_t) = myth_queue_push;
 void yield_resume_contract(myth_context_t from, myth_context_t to)
   __CPROVER_requires(from == &CUR.context && to == &TH1.context && g_pending == 1 && g_put == 1)
   __CPROVER_requires(ENVS[g_me].this_thread == &TH1 && TH1.env == &ENVS[g_me])
